@@ -74,7 +74,12 @@ func verifH_C18_ast() {
 	case 0:
 		c := anyCol("col")
 		var sl sql.SelectList
-		switch verifChoice("agg", 3) {
+		switch verifChoice("agg", 5) {
+		case 3:
+			// an aggregate next to a comparison over a column (evaluated per row, or once for an empty input)
+			sl = sql.SelectList{{ValueExpressionPrimary: sql.Count{}}, {ValueExpressionPrimary: sql.Predicate{ComparisonPredicate: sql.ComparisonPredicate{LHS: c, CompOp: sql.EQ, RHS: anyLit("e")}}}}
+		case 4:
+			sl = sql.SelectList{{ValueExpressionPrimary: sql.Predicate{ComparisonPredicate: sql.ComparisonPredicate{LHS: anyLit("e"), CompOp: sql.LT, RHS: c}}}, {ValueExpressionPrimary: sql.Average{ValueExpression: sql.ColumnReference{ColumnName: "a"}}}}
 		case 0:
 			sl = sql.SelectList{{ValueExpressionPrimary: sql.Average{ValueExpression: c}}}
 		case 1:
